@@ -145,6 +145,8 @@ def gen_dep_tx(rng, pool):
     r = rng.random()
     if r < 0.4:
         k = rng.choice([1, 1, 2, 3])
+        if rng.random() < 0.15:
+            return ["L", rng.choice([True, False])]     # equal to 1 / 0 across types, but a different bound
         vals = rng.sample([0, 1, 2, 3, 4, 1000], k)
         return ["L", *vals]
     if r < 0.5:
